@@ -505,12 +505,12 @@ pub fn def() -> PropertyDef {
 		rule: "Every fixture key algorithm of this back end; the secret components (EC scalar, Ed25519 seed, RSA d/p/q/dP/dQ/qInv) are cut out of the PKCS#8 by the harness reader and every output channel is scanned for any 16-byte window of any component in raw, hexadecimal (either case, separators), decimal-list and base64 (all four alignments) form: der()/pem() and Debug of certificates, CSRs, CSR parameters, CRLs, exported public keys, Debug of KeyPair and SubjectPublicKeyInfo; error paths: the key under every wrong algorithm through every entry point, 0..8 DER mutations, 0..3 PEM text edits (line deleted/duplicated, blank or space line inserted, label changed, header added, truncated, character replaced, CRLF, joined lines, garbage prepended) through all PEM loaders and through the certificate/CSR/SPKI parsers. The explicit export functions are the only exempt channel (and the scanner must find the key there). Non-trivial = artefact case, or an error-path case with at least one error text.",
 		assumptions: vec!["a leak is a contiguous window of >= 16 bytes of a secret component in one of the four renderings", "the harness reader extracts the secret components correctly (the scanner is checked against the explicit export in every artefact case)"],
 		subs: vec![
-			prop_sub("artefacts", 2_500, 150_000, || {
+			prop_sub("artefacts", 12_500, 150_000, || {
 				(local_key(), cert_case(CertGenOpts::FULL, true), csr_case(true), crl_case(false, true))
 					.prop_map(|(key, cert, csr, crl)| ArtefactCase { key, cert, csr, crl })
 					.boxed()
 			}, check_artefacts),
-			prop_sub("error-paths", 4_000, 250_000, || {
+			prop_sub("error-paths", 20_000, 250_000, || {
 				(local_key(), any::<bool>(), proptest::collection::vec(text_op(), 0..4), proptest::collection::vec(crate::props::c06::mutation(), 0..8))
 					.prop_map(|(key, legacy, ops, der_mutations)| ErrorPathCase { key, legacy, ops, der_mutations })
 					.boxed()
